@@ -2940,6 +2940,9 @@ impl Server {
                                             return Ok(RespFrame::error("ERR invalid expire time in 'set' command"));
                                         }
                                         expiration = Some(Duration::from_secs(seconds));
+                                        if StorageEngine::check_ttl(Duration::from_secs(seconds)).is_err() {
+                                            return Ok(RespFrame::error("ERR invalid expire time in 'set' command"));
+                                        }
                                         i += 2;
                                         continue;
                                     }
@@ -2958,6 +2961,9 @@ impl Server {
                                             return Ok(RespFrame::error("ERR invalid expire time in 'set' command"));
                                         }
                                         expiration = Some(Duration::from_millis(millis));
+                                        if StorageEngine::check_ttl(Duration::from_millis(millis)).is_err() {
+                                            return Ok(RespFrame::error("ERR invalid expire time in 'set' command"));
+                                        }
                                         i += 2;
                                         continue;
                                     }
